@@ -25,8 +25,9 @@ RULE = ("mode cases: every valid local mode of <=4 flags (thorough: all 2304 val
         "run as uid nobody (permission bits effective) and a seeded quarter also as the invoking user, half of the calls "
         "as Path(p, mode=m) and half through the registered type path_type(m)(p); plus every "
         "string of <=2 characters over the flag alphabet + 2 foreign characters and seeded longer strings as "
-        "(mostly invalid) modes. cwd cases: seeded config trees (nested files in 7 directories, relative/absolute/detour "
-        "spellings, list files loadable and not loadable as YAML, missing/malformed files and broken values as failure "
+        "(mostly invalid) modes. cwd cases: seeded config trees (nested files in 7 directories + 5 symbolic links to "
+        "directories at other depths, relative/absolute/detour spellings, a quarter of them through a link, some with "
+        "'..' after a link, list files loadable and not loadable as YAML, missing/malformed files and broken values as failure "
         "points) through parse_args(--cfg), parse_path, default_config_files, get_defaults, --mid <file>, --mid=<file>. Distinct = distinct (flag set, c-count, probed fact "
         "record, outcome) resp. distinct (entry point, tree, outcome); non-trivial = at least one flag resp. at "
         "least one nested file or path value.")
@@ -43,14 +44,18 @@ ASSUMPTIONS = [
     "local paths only: URL (u) and fsspec (s) resolution is outside the statement",
     "the fact record of a path is what os.stat/os.access answer at the time of the call (no concurrent change)",
     "the parent of a path is the physical parent dirname(realpath(path))",
-    "config-tree fixtures contain no symlinks, so os.getcwd() after chdir equals normpath of the directory",
+    "config-tree fixtures contain symbolic links to DIRECTORIES only (relative/absolute targets, a link reached through a "
+    "link; the table link -> realpath is measured by the runner); config/list/data files themselves are not symlinks; every "
+    "directory component named before a '..' exists (the kernel would answer ENOENT otherwise, the model pops)",
+    "os.chdir(d) fails exactly when d is not one of the fixture's physical directories (all are accessible to the "
+    "observing user); no handler of jsonargparse catches the resulting OSError",
     "'~name' spellings and file:// prefixes are not generated",
     "no other thread changes the process working directory during a load",
     "list files (List[path] given as a file) have >= 2 lines and their folded content is not itself an existing path; "
     "a list file is not loadable as YAML exactly when its first line starts with '@' (the only such lines generated)",
 ]
 EXHAUSTIVE = {"quick": False, "thorough": False}
-FINDING_CLASSES = {1: "not-file-missing", 2: "fc-fifo", 3: "cc-through-file", 4: "list-file-relative"}
+FINDING_CLASSES = {1: "not-file-missing", 2: "fc-fifo", 3: "cc-through-file", 4: "list-file-relative", 5: "chdir-lexical-dotdot"}
 
 # Repairs that have landed in /repo. The models are written once with the patched lines of fixes/C19-<key>.patch
 # selected by a `fixes` record (coq/Model/C19PathMode.v); a landed repair switches the model to the patched lines and
@@ -60,7 +65,8 @@ FINDING_CLASSES = {1: "not-file-missing", 2: "fc-fifo", 3: "cc-through-file", 4:
 # in known_findings/C19.txt (i.e. the lead only turns `open:` into `fixed:` there). FIXED_OVERRIDE, if not None,
 # is the set of landed keys instead; so is the environment variable C19_FIXED (comma separated), for trial runs.
 FIXED_OVERRIDE = None
-_FX_FIELD = {"not-file-missing": "fx_F", "fc-fifo": "fx_fifo", "cc-through-file": "fx_cc", "list-file-relative": "fx_lf"}
+_FX_FIELD = {"not-file-missing": "fx_F", "fc-fifo": "fx_fifo", "cc-through-file": "fx_cc", "list-file-relative": "fx_lf",
+             "chdir-lexical-dotdot": "fx_rp"}
 
 
 def fixed_keys():
@@ -149,19 +155,40 @@ def gen_mode_cases(rng, tier):
 
 # config trees --------------------------------------------------------------------------------------------
 DIRS = ["run", "a", "b", "b/sub", "x", "x/y", "deep/er/est"]
+# symbolic links to directories: relative and absolute targets, a link reached through another link; the alias table
+# says under which other spelling a physical directory can be reached
+# (the links lie at another depth than what they point to, so that "<link>/.." and "<link>/../.." differ between the
+# kernel's and the lexical reading)
+LINKS = [["lnk", "b"], ["ly", "x/y"], ["a/la", "/B/deep/er/est"], ["run/l2", "../lnk/sub"], ["deep/lx", "../x"]]
+ALIASES = {"b": "lnk", "x/y": "ly", "deep/er/est": "a/la", "b/sub": "run/l2", "x": "deep/lx"}
+
+
+def alias(rng, target, p=0.25):
+    """spell fixture-relative `target` through a symbolic link to one of its ancestor directories (sometimes)"""
+    if rng.random() >= p:
+        return target
+    cands = [d for d in ALIASES if target.startswith(d + "/") or target == d]
+    if not cands:
+        return target
+    d = rng.choice(cands)
+    return ALIASES[d] + target[len(d):]
 
 
 def rel_spelling(rng, target, from_dir):
-    """a spelling of fixture-relative `target` as seen from fixture-relative directory `from_dir`"""
+    """a spelling of fixture-relative `target` as seen from the (physical) fixture-relative directory `from_dir`"""
     how = rng.random()
+    via = alias(rng, target)
     if how < 0.15:
-        return "/B/" + target
-    r = os.path.relpath("/B/" + target, "/B/" + from_dir)
+        return "/B/" + via
+    r = os.path.relpath("/B/" + via, "/B/" + from_dir)
     if how < 0.3:
         return "./" + r
     if how < 0.4 and "/" in target:  # a detour through another directory
         other = rng.choice(DIRS)
-        return os.path.relpath("/B/" + other, "/B/" + from_dir) + "/" + os.path.relpath("/B/" + target, "/B/" + other)
+        # ... which may itself be spelled through a symbolic link: "<link>/.." then leaves the PHYSICAL parent
+        # (for the kernel), not the directory the link lies in (os.path.abspath)
+        return (os.path.relpath("/B/" + alias(rng, other, 0.5), "/B/" + from_dir) + "/"
+                + os.path.relpath("/B/" + target, "/B/" + other))
     return r
 
 
@@ -258,7 +285,7 @@ def gen_cwd_case(rng, tier):
     if entry not in ("default", "defaults_only") and rng.random() < pfail / 2:
         top["at"] = None
     return {"k": "cwd", "entry": entry, "start": start, "dirs": DIRS, "files": files + [d + "/@at.txt" for d in at_dirs],
-            "top": top, "tree": tree}
+            "links": LINKS, "top": top, "tree": tree}
 
 
 def generate(rng, tier):
@@ -356,10 +383,13 @@ def term(case, obs):
             go = "COther"
     elif "fail" in obs:
         go = "CFail"
+    elif "oserr" in obs:
+        go = "COsErr"
     else:
         go = "COther"
-    return "CCwd %s %s %s %s %s %s %s" % (
-        g_list([g_str(f) for f in obs["files"]], "str"), g_str(obs["cwd_before"]), g_str(case["top"]["given"]), body,
+    return "CCwd %s %s %s %s %s %s %s %s %s" % (
+        g_list([g_str(f) for f in obs["files"]], "str"), g_list([g_str(f) for f in obs.get("dirs", [])], "str"),
+        g_list(["(%s, %s)" % (g_str(a), g_str(b)) for a, b in obs.get("links", [])], "(str * str)"), g_str(obs["cwd_before"]), g_str(case["top"]["given"]), body,
         g_str(obs["cwd_after"]), g_opt(g_str(obs["cpd_after"]) if obs["cpd_after"] is not None else None), go)
 
 
@@ -370,7 +400,7 @@ def _outcome(obs):
     if "obs" in obs:
         o = obs["obs"]
         return "accept" if "ok" in o else o["err"]
-    return "ok" if "ok" in obs else ("fail" if "fail" in obs else "other")
+    return "ok" if "ok" in obs else ("fail" if "fail" in obs else ("oserr" if "oserr" in obs else "other"))
 
 
 def _depth(ns):
@@ -406,7 +436,7 @@ def describe(case, obs):
         return {"call": "%s  # cwd=%s uid=%s kind=%s" % (call, obs["cwd"], case["uid"], case["kind"]),
                 "probed_facts": obs["facts"], "observed": obs["obs"]}
     return {"entry": case["entry"], "process_cwd": "/B/" + case["start"], "top": case["top"], "tree": case["tree"],
-            "observed": {k: v for k, v in obs.items() if k != "files"}}
+            "observed": {k: v for k, v in obs.items() if k not in ("files", "dirs")}}
 
 
 def shrink(case):
@@ -454,20 +484,27 @@ META = {
                   "kernel; C19_mode_exact_any_repairs states the result for every combination of the proposed repairs "
                   "(fixes/C19-*.patch, modelled line by line) and C19_mode_exact_repaired is the full, unguarded statement "
                   "for the repaired Path. C19_relative_abs: relative is the spelling, absolute is absolute and is the "
-                  "(user-expanded) spelling below cwd, for all strings. C19_cwd_restored / C19_nested_value_restores and "
-                  "C19_relative_follows_config: for config files nested to ANY depth (induction over the tree of nested "
-                  "files, list files, inline sections, path values, broken values) loading restores (cwd, "
-                  "current_path_dir) on success and at every failure point, and each relative path resolves against the "
-                  "directory of the file that mentions it - outside one listed class (relative spelling of a YAML-loadable "
-                  "list file; C19_list_file_relative_refuted), which C19_relative_follows_config_repaired removes for the "
-                  "repaired _check_type. Models tied to the implementation by ~33k real Path() calls per quick run (as "
-                  "uid nobody, so the permission bits count, next to an independent os.stat/os.access probe) and real "
-                  "nested config files loaded through six entry points, every case judged inside Coq.",
+                  "(user-expanded) spelling below cwd, for all strings. Config trees: the model threads (os.getcwd(), "
+                  "current_path_dir) through change_to_path_dir for files nested to ANY depth (nested induction over "
+                  "nested files, list files loadable/not loadable as YAML, inline sections, path values, broken values), "
+                  "over ANY set of files, ANY table of symbolic links (kernel-style path resolution vs the lexical "
+                  "os.path.abspath the code uses before chdir) and ANY answer of os.chdir. C19_cwd_restored / "
+                  "C19_nested_value_restores: the state is restored on success and at every failure point provided every "
+                  "directory the code enters can be entered (os.chdir sits before the try: - "
+                  "C19_chdir_failure_leaks_refuted); C19_relative_follows_config: inside the guard each relative path "
+                  "resolves against the (physical) directory of the file that mentions it and the state is restored, for "
+                  "every combination of landed repairs; outside the guard are two listed classes (relative spelling of a "
+                  "YAML-loadable list file - repaired; '..' after a symbolic link in the spelling of a config file - "
+                  "C19_chdir_lexical_dotdot_refuted, open), and C19_relative_follows_config_repaired is the unguarded "
+                  "statement for the repaired code. Models tied to the implementation by ~33k real Path() / path_type() "
+                  "calls per quick run (as uid nobody, so the permission bits count, next to an independent "
+                  "os.stat/os.access probe) and real nested config files with symlinked directories loaded through six "
+                  "entry points, every case judged inside Coq.",
     "level_note": "Only exercised by the correspondence, not proved: that the Gallina models follow the Python code (hand "
-                  "written; mode tables are translated), os.path.join/expanduser/normpath/dirname as re-implemented in "
-                  "Gallina, and the classification of a probed path into the 8-field fact record. Trusted: Coq kernel/VM; "
+                  "written; mode tables are translated), os.path.join/expanduser/normpath/dirname and the kernel's symlink "
+                  "resolution as re-implemented in Gallina, and the classification of a probed path into the 8-field fact record. Trusted: Coq kernel/VM; "
                   "the fixture, probe and Gallina printer; os.stat/os.access/os.chdir. Outside the statement: URL/fsspec "
-                  "modes (u, s), '~user', file:// prefixes, symlinked config directories, concurrent chdir by other "
+                  "modes (u, s), '~user', file:// prefixes, config files that are themselves symbolic links, concurrent chdir by other "
                   "threads, single-line list files. No axioms.",
     "technique": "Rocq: kernel-evaluated finite product (forallb ... = true by vm_compute, lifted with forallb_forall to all "
                  "mode strings and all combinations of repairs) + structural (nested) induction over config trees with a "
